@@ -26,14 +26,22 @@ def rw_case(t, rnd):
     return head.upper() + (" " + tail if tail else "") if rnd.random() < 0.5 else head + (" " + tail.upper() if tail else "")
 
 
+def blanks(rnd, lo, hi):
+    """lo..hi-1 blanks: spaces, or (one time in four) a mix of spaces and tabs"""
+    n = rnd.randrange(lo, hi)
+    if rnd.random() < 0.75:
+        return " " * n
+    return "".join(rnd.choice(" \t") for _ in range(n))
+
+
 def rw_space(t, rnd):
     head, sep, tail = t.partition(" ")
     if not tail:
-        return head + " " * rnd.randrange(0, 3)
-    tail = PUNCT.sub(lambda m: " " * rnd.randrange(0, 4) + m.group(1) + " " * rnd.randrange(0, 4), tail)
+        return head + blanks(rnd, 0, 3)
+    tail = PUNCT.sub(lambda m: blanks(rnd, 0, 4) + m.group(1) + blanks(rnd, 0, 4), tail)
     # keyword / operand separators: widen existing single spaces
-    tail = re.sub(r" ", lambda m: " " * rnd.randrange(1, 4), tail)
-    return head + " " * rnd.randrange(1, 4) + tail + " " * rnd.randrange(0, 3)
+    tail = re.sub(r" ", lambda m: blanks(rnd, 1, 4), tail)
+    return head + blanks(rnd, 1, 4) + tail + blanks(rnd, 0, 3)
 
 
 def rw_frame(t, rnd):
